@@ -141,7 +141,7 @@ func (k Keeper) burnCoins(ctx sdk.Context, state *types.State) {
 		k.Logger(ctx).Debug("Coins burned", "coins", toSend)
 		defer telemetry.SetGaugeWithLabels(
 			[]string{types.ModuleName, "coin_send", types.BurnDestination},
-			float32(toSend.AmountOf(types.DenomToTrace).Int64()),
+			traceAmount(toSend),
 			[]metrics.Label{telemetry.NewLabel("denom", types.DenomToTrace)},
 		)
 		state.Remains = change
@@ -157,7 +157,7 @@ func (k Keeper) sendCoinsToModuleAccount(ctx sdk.Context, state *types.State) {
 		k.Logger(ctx).Debug("coins sent to module account dst", "accountId", state.Account.Id, "toSend", toSend.String())
 		defer telemetry.SetGaugeWithLabels(
 			[]string{types.ModuleName, "coin_send", state.Account.Id},
-			float32(toSend.AmountOf(types.DenomToTrace).Int64()),
+			traceAmount(toSend),
 			[]metrics.Label{telemetry.NewLabel("denom", types.DenomToTrace)},
 		)
 		state.Remains = change
@@ -175,7 +175,7 @@ func (k Keeper) sendCoinsToBaseAccount(ctx sdk.Context, state *types.State) {
 		k.Logger(ctx).Debug("coins sent to base account dst", "accountId", state.Account.Id, "toSend", toSend)
 		defer telemetry.SetGaugeWithLabels(
 			[]string{types.ModuleName, "coin_send", state.Account.Id},
-			float32(toSend.AmountOf(types.DenomToTrace).Int64()),
+			traceAmount(toSend),
 			[]metrics.Label{telemetry.NewLabel("denom", types.DenomToTrace)},
 		)
 		state.Remains = change
@@ -301,4 +301,12 @@ func (k Keeper) StartDistributionProcess(ctx sdk.Context, states *[]types.State,
 	}
 	k.Logger(ctx).Debug("start distribution process ret", "subDistributor", subDistributor.String(), "localRemains", localRemains)
 	return
+}
+
+func traceAmount(coins sdk.Coins) float32 {
+	amount := coins.AmountOf(types.DenomToTrace)
+	if !amount.IsInt64() {
+		return 0
+	}
+	return float32(amount.Int64())
 }
